@@ -409,6 +409,38 @@ func (x *Exec) specHelper(o *types.Func, e *ast.CallExpr, st *State, env *Env) (
 		v := x.eval(e.Args[0], st, env).(Scalar)
 		return []Value{Scalar{app(o.Name(), v.T), intTI}}, true
 	}
+	// uninterpreted spec function: body is panic("uninterpreted"); it becomes an SMT function symbol
+	if fd0 := x.w.Decls[o.Pkg().Name()+"."+o.Name()]; fd0 != nil && fd0.Body != nil && len(fd0.Body.List) == 1 {
+		if es, ok := fd0.Body.List[0].(*ast.ExprStmt); ok {
+			if ce, ok := es.X.(*ast.CallExpr); ok && len(ce.Args) == 1 {
+				if id, ok := ce.Fun.(*ast.Ident); ok && id.Name == "panic" {
+					if bl, ok := ce.Args[0].(*ast.BasicLit); ok && bl.Value == `"uninterpreted"` {
+						sig := o.Type().(*types.Signature)
+						var sorts, terms []string
+						for i, a := range x.evalArgs(e, st, env) {
+							sc, ok := a.(Scalar)
+							if !ok {
+								x.abort("uninterpreted function %s: argument %d is not a scalar", o.Name(), i)
+							}
+							want := x.classify(sig.Params().At(i).Type())
+							if want.K == TInt && sc.TI.K == TBV {
+								sc = Scalar{x.toInt(sc), want}
+							}
+							sorts = append(sorts, want.sort())
+							terms = append(terms, sc.T)
+						}
+						rt := x.classify(sig.Results().At(0).Type())
+						name := "|uf_" + o.Name() + "|"
+						if _, done := x.fc.sorts[name]; !done {
+							x.fc.sorts[name] = "uf"
+							x.fc.decls = append(x.fc.decls, fmt.Sprintf("(declare-fun %s (%s) %s)", name, strings.Join(sorts, " "), rt.sort()))
+						}
+						return []Value{Scalar{app(name, terms...), rt}}, true
+					}
+				}
+			}
+		}
+	}
 	// predicate / spec function: inline a single-return body
 	key := o.Pkg().Name() + "." + o.Name()
 	if r := o.Type().(*types.Signature).Recv(); r != nil {
@@ -503,8 +535,12 @@ func (x *Exec) evalQuant(kind string, e *ast.CallExpr, st *State, env *Env) Valu
 				continue
 			}
 			dependsOnAnchored := false
+			depExprs := []ast.Expr{a.node.X}
 			for _, t := range a.rest {
-				ast.Inspect(t.e, func(m ast.Node) bool {
+				depExprs = append(depExprs, t.e)
+			}
+			for _, de := range depExprs {
+				ast.Inspect(de, func(m ast.Node) bool {
 					if id, ok := m.(*ast.Ident); ok {
 						if o2 := x.objOf(id); bound[o2] {
 							if a2, ok := anchors[o2]; ok {
@@ -695,9 +731,10 @@ func (x *Exec) findAnchors(body ast.Expr, bound map[types.Object]bool, search []
 					}
 				}
 				_ = st
-				if !ok || mentions(t.X) || x.classify(x.typeOf(t.X)).K == TGhostMap {
+				if !ok || x.classify(x.typeOf(t.X)).K == TGhostMap {
 					return true
 				}
+				xMentions := mentions(t.X) // the slice itself depends on bound variables (s.edges[x][k]): allowed for another variable
 				var terms []signedExpr
 				flatten(t.Index, false, &terms)
 				var v types.Object
@@ -711,6 +748,15 @@ func (x *Exec) findAnchors(body ast.Expr, bound map[types.Object]bool, search []
 						}
 					}
 					rest = append(rest, tm)
+				}
+				if v != nil && xMentions {
+					// the slice expression must not mention the variable it anchors
+					ast.Inspect(t.X, func(m ast.Node) bool {
+						if id, ok := m.(*ast.Ident); ok && x.objOf(id) == v {
+							good = false
+						}
+						return good
+					})
 				}
 				if v != nil {
 					// the remaining terms must not mention v itself
